@@ -7,9 +7,11 @@
 //!   axsim gen <PROP> <tier> <idx>         print the scenario of one run (debugging)
 
 mod common;
+mod e1;
 mod e2;
 mod engine;
 mod hooks;
+mod regs;
 mod rng;
 mod sup;
 
